@@ -293,7 +293,8 @@ Proof.
       * reflexivity.
       * destruct D; discriminate.
       * apply Forall_app. split; [assumption|]. constructor; [unfold digit_char, is_digit; lia | constructor].
-      * intro a. unfold dval. rewrite fold_left_app. fold (dval D a). rewrite Hval, Hlen, Hp. cbn. unfold dstep, digit_char. lia.
+      * intro a. unfold dval. rewrite fold_left_app. fold (dval D a). rewrite Hval, Hlen, Hp. cbn [fold_left]. unfold dstep, digit_char.
+        generalize (10 ^ N.of_nat (length D)). intro P. nia.
       * rewrite Hlen, Hp. lia.
       * left. rewrite Hlen. replace (S (length D) - 1)%nat with (length D) by lia.
         destruct Hge as [Hge|Hge].
@@ -350,8 +351,8 @@ Lemma py_int_digits : forall s, s <> [] -> Forall (fun c => is_digit c = true) s
   py_int s = Some (Z.of_N (dval s 0)).
 Proof.
   intros s Hne Hd Hl. unfold py_int, py_int_gen, strip.
-  rewrite lstrip_digits by assumption.
-  rewrite lstrip_digits by (apply Forall_rev; assumption).
+  rewrite (lstrip_digits s Hd).
+  rewrite (lstrip_digits (rev s)) by (apply Forall_rev; assumption).
   rewrite rev_involutive.
   destruct s as [|d r]; [contradiction|]. inversion Hd; subst.
   rewrite sign_match_digit by assumption.
@@ -370,3 +371,46 @@ Proof.
     assert (10 ^ 4300 <= 10 ^ N.of_nat (length (n_to_dec n) - 1)) by (apply N.pow_le_mono_r; [discriminate | lia]).
     lia.
 Qed.
+
+Lemma digits_cfree : forall c s, Forall (fun x => is_digit x = true) s -> is_digit c = false -> cfree c s.
+Proof.
+  intros c s H Hc I. rewrite Forall_forall in H. apply H in I. congruence.
+Qed.
+
+Lemma n_to_dec_cfree : forall c n, is_digit c = false -> cfree c (n_to_dec n).
+Proof. intros c n H. apply digits_cfree; [apply n_to_dec_digits | assumption]. Qed.
+
+Lemma z_to_dec_soh_free : forall z, cfree 1 (z_to_dec z).
+Proof.
+  destruct z; cbn [z_to_dec].
+  - intros [E|[]]. discriminate.
+  - apply n_to_dec_cfree. reflexivity.
+  - apply cfree_cons. split; [discriminate | apply n_to_dec_cfree; reflexivity].
+Qed.
+
+(* ---------- "%0.3i" of a checksum ---------- *)
+
+Definition below256 (P : N -> bool) : bool := forallb P (map N.of_nat (seq 0 256)).
+
+Lemma below256_spec : forall P, below256 P = true -> forall c, c < 256 -> P c = true.
+Proof.
+  unfold below256. intros P H c Hc. rewrite forallb_forall in H. apply H.
+  apply in_map_iff. exists (N.to_nat c). split; [apply N2Nat.id | apply in_seq; lia].
+Qed.
+
+Lemma fmt03_facts : forall c, c < 256 ->
+  py_int (fmt03 c) = Some (Z.of_N c) /\ length (fmt03 c) = 3%nat /\ cfree 1 (fmt03 c).
+Proof.
+  intros c Hc.
+  assert (H : below256 (fun c => match py_int (fmt03 c) with Some z => Z.eqb z (Z.of_N c) | None => false end
+                                 && Nat.eqb (length (fmt03 c)) 3 && cfreeb 1 (fmt03 c)) = true) by (vm_compute; reflexivity).
+  pose proof (below256_spec _ H c Hc) as Hb. cbv beta in Hb.
+  apply andb_true_iff in Hb as [Hb H3]. apply andb_true_iff in Hb as [H1 H2].
+  split; [|split].
+  - destruct (py_int (fmt03 c)); [|discriminate]. apply Z.eqb_eq in H1. congruence.
+  - apply Nat.eqb_eq. assumption.
+  - apply cfreeb_spec. assumption.
+Qed.
+
+Lemma checksum_lt : forall s, (sum_codes s) mod 256 < 256.
+Proof. intro s. apply N.mod_lt. discriminate. Qed.
